@@ -247,8 +247,10 @@ func init() {
 	externals["time.AfterFunc"] = func(p *Path, fr *Frame, fn *ssa.Function, a []Value) Value {
 		// the callback would run on its own goroutine: outside the model; the timer never fires here
 		v := newTimer(p, fn, a[0].(*Term))
-		p.timerOf[v.(Ptr).slot].active = false
-		p.res.Stubs["time.AfterFunc callbacks never run (A-SEQ)"] = true
+		vt := p.timerOf[v.(Ptr).slot]
+		vt.active = false
+		vt.fn, vt.pending = a[1], true
+		p.res.Stubs["time.AfterFunc callbacks run only where the harness calls vx_run_timers() (A-SEQ)"] = true
 		return v
 	}
 	externals["(*time.Timer).Stop"] = func(p *Path, fr *Frame, fn *ssa.Function, a []Value) Value {
@@ -258,6 +260,7 @@ func init() {
 		}
 		was := vt.active
 		vt.active = false
+		vt.pending = false
 		return p.tt.BoolC(was)
 	}
 	externals["(*time.Timer).Reset"] = func(p *Path, fr *Frame, fn *ssa.Function, a []Value) Value {
@@ -838,6 +841,14 @@ func (p *Path) intrinsic(fr *Frame, fn *ssa.Function, a []Value) (Value, bool) {
 		d := a[0].(*Term)
 		p.boundsCheck(fr, tt.Cmp(OSle, tt.U64(0), d), "vx_clock_advance: negative")
 		p.clock = tt.Bin(OAdd, p.clockTerm(), d)
+		return nil, true
+	case "vx_run_timers": // due time.AfterFunc callbacks run now, synchronously, in creation order
+		for _, vt := range append([]*VTimer(nil), p.timers...) {
+			if vt.pending && vt.fn != nil && p.branch(tt.Cmp(OSle, vt.deadline, p.clockTerm())) {
+				vt.pending = false
+				p.callValue(fr, vt.fn, nil, false)
+			}
+		}
 		return nil, true
 	case "vx_concretize_rand": // every crypto/rand.Int draw is split into its possible values
 		p.concRand = true
